@@ -436,6 +436,14 @@ impl RuntypeUUID {
         }
     }
 
+    fn js_name_is_taken(candidate: &str, ctx: &DebugPrintCtx<'_>) -> bool {
+        ctx.type_with_args_names.values().any(|it| it == candidate)
+            || ctx.all_names.iter().any(|it| {
+                it.type_arguments.is_empty()
+                    && it.ty.print_name_for_js_codegen(ctx.all_names) == candidate
+            })
+    }
+
     fn print_name_for_js_codegen(&self, ctx: &mut DebugPrintCtx<'_>) -> String {
         let base = self.ty.print_name_for_js_codegen(ctx.all_names);
 
@@ -446,19 +454,14 @@ impl RuntypeUUID {
                     let type_with_args_count = ctx.type_with_args_names.len();
                     let final_suffix =
                         Self::type_with_args_str(type_with_args_count, &self.type_arguments, ctx);
-                    let final_name = format!("{}{}", base, final_suffix);
-                    for (uuid, name) in ctx.type_with_args_names.iter() {
-                        let has_same_name = name == &final_name;
-                        if has_same_name {
-                            dbg!(&uuid);
-                            dbg!(&self);
-                            dbg!(uuid == self);
-                            panic!(
-                                "Internal error: type with args name conflict: {} vs {}",
-                                uuid.diag_print(),
-                                self.diag_print()
-                            );
-                        }
+                    let mut final_name = format!("{}{}", base, final_suffix);
+                    // `Box<X_Y>` and `Box_X<Y>` both spell `Box_X_Y`, and a user type may be
+                    // called `Box_A` next to an instance `Box<A>`: names have to stay apart,
+                    // fall back to the numbered form until the name is free
+                    let mut n = type_with_args_count;
+                    while Self::js_name_is_taken(&final_name, ctx) {
+                        final_name = format!("{}_instance_{}", base, n);
+                        n += 1;
                     }
 
                     ctx.type_with_args_names
